@@ -10,6 +10,7 @@ SkToPk, Sign, PopProve of every suite.  KeyGen outputs are fed through SkToPk / 
 """
 from ..core import R, rng
 from ..model import bls as MB
+from ..model import bls as _MBX
 from . import blslib as BL
 
 LEVEL = "exploration"
@@ -58,10 +59,9 @@ def honest_case(suite, sk, msg):
     sig = BL.call(S.Sign, sk, msg)
     if sig[0] != "ok" or not isinstance(sig[1], bytes) or len(sig[1]) != 96:
         return ("Sign", "96 bytes", sig)
-    # history: the same key bytes offered to KeyValidate in other byte-like types first (whatever
-    # those calls answer or raise, they must not influence the verdict for the bytes key)
-    for wrap in (memoryview, bytearray):
-        BL.call(S.KeyValidate, wrap(pk[1]))
+    # history: related inputs through other public entry points first (whatever those calls answer
+    # or raise, they must not influence the verdict)
+    BL.prelude(suite, pk[1], _MBX.hashed_message(suite, sk, msg), _MBX.DST[suite], sig[1])
     v = BL.verdict(S.Verify, pk[1], msg, sig[1])
     if v is not True:
         return ("Verify", True, v)
